@@ -23,7 +23,7 @@ def gen_type(rng, depth, nprims, allow_zero=False):
         nf = rng.choice([0, 1, 1, 2, 2, 3, 4, 6]) if rng.random() < .9 else 0
         fs = [gen_type(rng, depth - 1, nprims, allow_zero) for _ in range(nf)]
         packed = rng.random() < 0.2
-        aligned = rng.choice([0, 0, 0, 0, 1, 2, 4, 8, 16, 32]) if nf else 0
+        aligned = rng.choice([0, 0, 0, 0, 1, 2, 4, 8, 16, 32, 64, 4096]) if nf else 0
         return ("rec", packed, aligned, fs)
     nf = rng.choice([1, 2, 2, 3, 4])
     return ("uni", [gen_type(rng, depth - 1, nprims, allow_zero) for _ in range(nf)])
